@@ -37,10 +37,19 @@ def module_fns(prog, cg, m):
     return _MF[k]
 
 
+_WC = {}
+
+
 def with_closures(b, cg):
-    out = [b] + list(cg.children.get(b.id, []))
+    kids = list(cg.children.get(b.id, []))
     for fid in getattr(b, 'inlined_from', []):
-        out.extend(cg.children.get(fid, []))
+        kids.extend(cg.children.get(fid, []))
+    out = [b]
+    for c in kids:
+        # private helpers called from a closure (`.map(|v| encoded_len_varint(zigzag(v)))`) are read through as well
+        if c.id not in _WC:
+            _WC[c.id] = mirlib.inline_calls(c, private_helper)
+        out.append(_WC[c.id])
     return out
 
 
@@ -147,6 +156,15 @@ def trio(rep, rule, prog, cg):
             for op, a, c, sbb, tb in [g for cs in mer.calls() if cs.name.startswith('get_') for g in mer.comparisons_at(cs.bb)]:
                 if c is not None and c[0] == 'const' and op in ('Ge', 'Gt'):
                     guard = c[1]
+            if guard is None:
+                # the check may live in a validating helper (`ensure_remaining(buf, 4)?`): what it guarantees on its Ok exit
+                import audit as _audit
+                orig = prog.bodies.get(mer.id)
+                for cs in (orig.calls() if orig is not None else []):
+                    if cs.name.startswith('get_'):
+                        for op, a, c, sbb, tb in _audit.facts_at(orig, cs.bb):
+                            if c is not None and strip_casts(c)[0] == 'const' and op in ('Ge', 'Gt') and any(x and x[0] == 'call' and x[1].endswith('::remaining') for x in subexprs(a)):
+                                guard = strip_casts(c)[1]
             lens = _fold_const(ln, prog, cg)
             if puts == [('w', 'fix', ty, 'le')] and gets == [('r', 'fix', ty, 'le')] and guard == width:
                 rep.ok(rule, key, 'put_%s_le / get_%s_le under remaining >= %d' % (ty, ty, width), enc.loc())
